@@ -21,14 +21,16 @@ T2: wire harness.  Every scenario is run TWICE with the same scripted client pro
         everything; mirror down from the start: exactly the first `capacity` buffers once it is up)
         and for the attachment function on every generated mapping.
 """
-import json, os, sys
+import hashlib, json, os, sys
 import vlib
 from props import wirelib as W
 
 COQ_FILES = ["Mirror/Model.v", "Mirror/Proofs.v", "Mirror/Props.v"]
 LAT_BOUND_MS = 500
 FLUSH_THR = 8196          # client.rs 'd' arm: `if self.buffer.len() > 8196` (tied by C03's translator)
-FAULTS = ["down", "hang_startup", "hang", "slow", "close_mid_reply", "error"]
+# "down_held" = not listening (connect refused) with the port kept reserved; "refuse" = accepts and closes at once;
+# "noread" = established sessions stop reading (TCP back-pressure on the mirror task)
+FAULTS = ["down_held", "refuse", "hang_startup", "hang", "noread", "slow", "close_mid_reply", "error"]
 
 KNOWN_TEXT = {
     "C20-M1": "mirror-only: the mirror task polls server.recv(None) inside tokio::select! (mirrors.rs:84); recv reads a frame with read_u8/read_i32/read_exact, which is not cancellation safe: when the next buffer arrives while a reply of the mirror is half read, the bytes read so far are thrown away and the mirror connection is desynchronised; the next 'frame' is garbage (a negative length makes BytesMut::with_capacity panic => the mirror task dies and that server connection is never mirrored again; a large positive one allocates up to 2 GiB). The primary path is unaffected",
@@ -200,7 +202,7 @@ def build_scenario(cfg, program, sched, with_mirrors, tail_ms=150, extra_tail=No
             clients.append(r["c"])
     # faults "from the start" are in place (listener really closed, ...) before pgcat is first used
     for at, b, mode, slow in sched:
-        if at == 0:
+        if at == 0 and b != "_sleep":
             steps.append({"op": "backend", "b": b, "mode": mode, "slow_ms": slow})
     steps.append({"op": "sleep", "ms": 30})
     for c in clients:
@@ -210,16 +212,25 @@ def build_scenario(cfg, program, sched, with_mirrors, tail_ms=150, extra_tail=No
         if app:
             params["application_name"] = app   # makes pgcat send its own SET application_name (sync_parameters)
         steps.append({"op": "connect", "c": c, "params": params, "password": "pw"})
+    prev = None
     for i, r in enumerate(program):
         if r["c"] == "c9" and not any(st.get("op") == "connect" and st.get("c") == "c9" for st in steps):
             steps.append({"op": "connect", "c": "c9", "params": {"user": "u", "database": "db"}, "password": "pw"})
+        if prev is not None and prev != r["c"]:
+            # another client takes over: let pgcat finish the check-in of the previous one (it answers the client
+            # BEFORE checkin_cleanup), otherwise which server connection the next client gets is a race
+            steps.append({"op": "sleep", "ms": 40})
+        prev = r["c"]
         for at, b, mode, slow in sched:
             if at == i and i > 0:
-                steps.append({"op": "backend", "b": b, "mode": mode, "slow_ms": slow})
+                if b == "_sleep":
+                    steps.append({"op": "sleep", "ms": mode})
+                else:
+                    steps.append({"op": "backend", "b": b, "mode": mode, "slow_ms": slow})
         steps.append({"op": "send", "c": r["c"], "msgs": r["msgs"]})
         steps.append({"op": "recv", "c": r["c"], "until": r["until"], "count": r["count"], "timeout_ms": 3000, "label": "r%d" % i})
     for at, b, mode, slow in sched:
-        if at >= len(program):
+        if at >= len(program) and b != "_sleep":
             steps.append({"op": "backend", "b": b, "mode": mode, "slow_ms": slow})
     steps += (extra_tail or [])
     steps += [{"op": "sleep", "ms": tail_ms}, {"op": "snapshot", "label": "end"}]
@@ -353,7 +364,9 @@ def check_pair(cfg, program, sched, res_m, res_b):
     if sm != sb:
         bad.append(("server-bytes", "the frames received by the real servers differ between the mirrored and the plain run: %s vs %s" % (
             {k: [len(c) for c in v] for k, v in sm.items()}, {k: [len(c) for c in v] for k, v in sb.items()})))
-    if res_m.get("task_results") != res_b.get("task_results"):
+    def own(tr):
+        return [x for x in (tr or []) if "Invalid pool name" not in x]
+    if own(res_m.get("task_results")) != own(res_b.get("task_results")):
         bad.append(("transcript", "pgcat client tasks ended differently: %s vs %s" % (res_m.get("task_results"), res_b.get("task_results"))))
     # latency (coarse): no request may take LAT_BOUND_MS longer than... itself without mirrors
     lb = {(w, l): ms for w, l, ms in request_latencies(res_b)}
@@ -378,6 +391,14 @@ def check_pair(cfg, program, sched, res_m, res_b):
         closes = {e["conn"]: e.get("why") for e in res_m["events"] if e.get("who") == mb and e.get("ev") == "close"}
         for mc in morder:
             fr = list(md[mc])
+            # whole frames only: every logged frame is tag + length + exactly length-4 bytes, and the connection did
+            # not end inside a frame
+            for t, raw in fr:
+                if len(raw) < 10 or int(raw[2:10], 16) + 1 != len(raw) // 2:
+                    bad.append(("mirror-partial", "mirror %s conn %d: a logged frame is not whole (%s...)" % (mb, mc, raw[:24])))
+                    break
+            if closes.get(mc) in ("eof in header", "eof in body"):
+                bad.append(("mirror-partial", "mirror %s conn %d: pgcat closed the connection inside a frame (%s)" % (mb, mc, closes.get(mc))))
             clean_end = bool(fr) and fr[-1][0] == "X"
             if clean_end:
                 fr = fr[:-1]
@@ -400,7 +421,10 @@ def check_pair(cfg, program, sched, res_m, res_b):
                 if foreign:
                     bad.append(("mirror-foreign", "mirror %s (target index %d = %s) received a request that was sent to another server: %s" % (mb, tgt, tb_name, bytes.fromhex(foreign[0])[:80])))
                 elif not anyframe:
-                    bad.append(("mirror-subseq", "mirror %s conn %d: %d frames are not an in-order subsequence of what any connection of %s received" % (mb, mc, len(fr), tb_name)))
+                    known = {raw for pc in porder for _, raw in pd[pc]}
+                    odd = [raw for _, raw in fr if raw not in known]
+                    bad.append(("mirror-subseq", "mirror %s conn %d: %d frames are not an in-order subsequence of what any connection of %s received (%s)" % (
+                        mb, mc, len(fr), tb_name, ("first frame the server never got: %r" % bytes.fromhex(odd[0])[:90]) if odd else "order differs")))
                 else:
                     bad.append(("mirror-partial", "mirror %s conn %d: frames are a subsequence of %s's, but not a sequence of WHOLE send buffers (%s)" % (mb, mc, tb_name, "".join(t for t, _ in fr)[:120])))
         # across reconnects: when the target has a single connection, the mirror task is unique and
@@ -569,7 +593,7 @@ def zombie_scenario():
     """C20-M2.  Mirror unreachable; the mirrored server connection is created, used, and closed (the server closes
     it: /*mock: close*/); 600 ms later the mirror comes up: the task of the dead connection connects to it."""
     cfg = CONFIGS[0]
-    steps = [{"op": "backend", "b": "m0", "mode": "down"}, {"op": "sleep", "ms": 30},
+    steps = [{"op": "backend", "b": "m0", "mode": "down_held"}, {"op": "sleep", "ms": 30},
              {"op": "connect", "c": "c1", "params": {"user": "u", "database": "db"}, "password": "pw"}]
     for i in range(3):
         steps += [{"op": "send", "c": "c1", "msgs": [Q("SELECT %d /*z_%d*/" % (i, i))]}, {"op": "recv", "c": "c1", "until": "Z", "timeout_ms": 3000, "label": "r%d" % i}]
@@ -635,12 +659,16 @@ def check(run):
             # not between a COPY start and its data, not inside c1's own transaction (only one server connection would be free anyway)
             while at < len(program) and at > 0 and (program[at - 1]["until"] == "GZ"):
                 at += 1
-            program = program[:at] + c2 + program[at:] + [req("c2", [Q("COMMIT /*f%d_c2c*/" % i)], kind="txn")]
+            program = program[:at] + c2 + program[at:]
+            tail_c2 = [req("c2", [Q("COMMIT /*f%d_c2c*/" % i)], kind="txn")]
+        else:
+            tail_c2 = []
         if i % 5 == 4:
             # the real server closes its connection under a query (pgcat ends that client); a new client then gets a new
             # server connection, i.e. a second mirror task while the first one is told to exit
             program = program + [req("c1", [Q("SELECT 1 /*mock: close*/ /*f%d_close*/" % i)], kind="srvclose"),
                                  req("c9", [Q("SELECT 2 /*f%d_n1*/" % i)]), req("c9", [Q("SELECT 3 /*f%d_n2*/" % i)])]
+        program = program + tail_c2   # c2 keeps its server connection until everybody else is done (deterministic assignment)
         fault = FAULTS[i % len(FAULTS)]
         sched = gen_schedule(rng, cfg[2], len(program), fault)
         cases.append({"kind": "fault", "cfg": cfg, "program": program, "sched": sched, "fault": fault, "app": ("app%d" % i) if i % 2 else None})
@@ -654,8 +682,23 @@ def check(run):
         cfg = CONFIGS[[0, 1, 4, 6, 0, 1][i % 6]]
         with_txn = i % 2 == 1
         program = outage_program(rng, capacity, with_txn)
-        sched = [(0, mb, "down", 0) for mb, t in cfg[2]] + [(len(program), mb, "normal", 0) for mb, t in cfg[2]]
+        sched = [(0, mb, "down_held" if i % 4 < 2 else "refuse", 0) for mb, t in cfg[2]] + [(len(program), mb, "normal", 0) for mb, t in cfg[2]]
         cases.append({"kind": "outage", "cfg": cfg, "program": program, "sched": sched, "with_txn": with_txn})
+
+    # the mirror stops reading while megabytes go through: the mirror task blocks in its write, the channel fills up
+    for i in range(1 if quick else 4):
+        cfg = CONFIGS[0]
+        program = [req("c1", [Q("SELECT 0 /*bp%d_first*/" % i)])]
+        k = 0
+        for b in range(6 if quick else 10):
+            msgs = []
+            for j in range(10):
+                k += 1
+                msgs.append(Q("SELECT %d /*%s*/ /*bp%d_%d*/" % (k, "y" * 100000, i, k)))
+            program.append(req("c1", msgs, until="Z", count=10, kind="burst"))
+        program.append(req("c1", [Q("SELECT 0 /*bp%d_last*/" % i)]))
+        sched = [(1, "_sleep", 80, 0), (1, "m0", "noread", 0), (len(program), "m0", "normal", 0)]
+        cases.append({"kind": "backpressure", "cfg": cfg, "program": program, "sched": sched})
 
     scns = []
     for cs in cases:
@@ -663,16 +706,28 @@ def check(run):
         tail = 150
         if cs["kind"] == "outage":
             tail = 900
+        if cs["kind"] == "backpressure":
+            tail = 1500
         cs["scn_m"] = build_scenario(cs["cfg"], cs["program"], cs["sched"], True, tail_ms=tail, extra_tail=extra, app=cs.get("app"))
         cs["scn_b"] = build_scenario(cs["cfg"], cs["program"], cs["sched"], False, tail_ms=20, app=cs.get("app"))
         scns += [cs["scn_m"], cs["scn_b"]]
     run.log("running %d scenario pairs" % len(cases))
-    results = W.run_scenarios(wire, scns, timeout=120)
+    heavy = [i for i, cs in enumerate(cases) if cs["kind"] == "backpressure"]
+    light = [i for i, cs in enumerate(cases) if cs["kind"] != "backpressure"]
+    results = [None] * len(scns)
+    idx = [j for i in light for j in (2 * i, 2 * i + 1)]
+    for j, r in zip(idx, W.run_scenarios(wire, [scns[j] for j in idx], timeout=120)):
+        results[j] = r
+    # the multi-megabyte runs on their own, 4 at a time (their latencies are compared)
+    idx = [j for i in heavy for j in (2 * i, 2 * i + 1)]
+    for j, r in zip(idx, W.run_scenarios(wire, [scns[j] for j in idx], workers=4, timeout=300)):
+        results[j] = r
     for i, cs in enumerate(cases):
         cs["res_m"], cs["res_b"] = results[2 * i], results[2 * i + 1]
 
     distinct = set()
-    stats = {"fault": 0, "healthy": 0, "outage": 0, "mirror_frames": 0, "primary_frames": 0, "mirror_conns": 0, "overflow_runs": 0, "requests": 0,
+    unconfirmed = []
+    stats = {"fault": 0, "healthy": 0, "outage": 0, "backpressure": 0, "backpressure_mirror_vs_primary_frames": [], "slow_in_both_runs": [], "mirror_frames": 0, "primary_frames": 0, "mirror_conns": 0, "overflow_runs": 0, "requests": 0,
              "by_fault": {}, "by_cfg": {}, "req_kinds": {}, "max_latency_ms_with_mirrors": 0.0, "drops_observed": 0}
     samples = []
     for cs in cases:
@@ -681,22 +736,23 @@ def check(run):
         if bad and bad[0][0] == "harness":
             run.broken.append("wire harness failed: %s" % bad[0][1])
             continue
-        # a latency excess must reproduce (the machine is shared): re-run the pair twice
-        if bad and all(k == "latency" for k, _ in bad):
-            again = 0
+        # a failure must reproduce when the pair is re-run on its own: the machine is shared (other checks run their
+        # own poolers and mock backends at the same time; load spikes), and a first failure that does not repeat is
+        # recorded in the evidence but not reported
+        if bad:
+            first = bad
+            bad = []
             for _ in range(2):
-                r2 = W.run_scenarios(wire, [cs["scn_m"], cs["scn_b"]], timeout=120)
+                r2 = W.run_scenarios(wire, [cs["scn_m"], cs["scn_b"]], timeout=180)
                 b2 = check_pair(cs["cfg"], cs["program"], cs["sched"], r2[0], r2[1])
-                if any(k == "latency" for k, _ in b2):
-                    again += 1
-                if any(k not in ("latency",) for k, _ in b2):
+                if b2 and b2[0][0] != "harness":
                     bad = b2
+                    cs["res_m"], cs["res_b"] = r2
                     break
-            else:
-                if again < 2:
-                    bad = []
+            if not bad:
+                unconfirmed.append({"config": cs["cfg"][0], "kind": cs["kind"], "first_failure": [list(b) for b in first][:2]})
         key = json.dumps([cs["cfg"][0], [(r["c"], r["msgs"]) for r in cs["program"]], cs["sched"]], sort_keys=True)
-        distinct.add(key)
+        distinct.add(hashlib.sha1(key.encode()).hexdigest())
         stats[cs["kind"]] += 1
         stats["requests"] += len(cs["program"])
         for r in cs["program"]:
@@ -712,8 +768,14 @@ def check(run):
                 stats["drops_observed"] += 1
         for b, _ in cs["cfg"][1]:
             stats["primary_frames"] += mc[b]["frames"]
+        if cs["kind"] == "backpressure":
+            stats["backpressure_mirror_vs_primary_frames"].append([mc["m0"]["frames"], mc["p0"]["frames"]])
+        lat_b = {(w, l): ms for w, l, ms in request_latencies(cs["res_b"])}
         for w, l, ms in request_latencies(cs["res_m"]):
             stats["max_latency_ms_with_mirrors"] = max(stats["max_latency_ms_with_mirrors"], ms)
+            if ms > LAT_BOUND_MS and len(stats["slow_in_both_runs"]) < 10:
+                kind = cs["program"][int(l[1:])]["kind"] if l and l[1:].isdigit() and int(l[1:]) < len(cs["program"]) else None
+                stats["slow_in_both_runs"].append({"config": cs["cfg"][0], "client": w, "request": l, "kind": kind, "ms_with_mirrors": round(ms), "ms_without": round(lat_b.get((w, l), -1))})
         run.cov["traces_validated_against_impl"] += 1
         for kind, text in bad[:1]:
             run.violation("counterexample" if kind in ("transcript", "server-bytes", "latency", "mirror-foreign", "mirror-subseq", "mirror-partial", "mirror") else "tie-broken",
@@ -831,12 +893,15 @@ def check(run):
 
     run.cov["distinct_nontrivial"] = len(distinct)
     run.cov["rule"] = ("pairs (same client program + same mirror fault schedule, run with and without the [mirrors] section): %d fault timings over %d mirror-to-server mappings "
-                       "(1-2 servers, 0-2 mirrors per server, target index 0/1/5=no server, pool_size 1-2), first mirror's fault cycling through %s, shapes from-start / later / recovering / flapping, "
-                       "second mirror random; programs of 5-12 requests: simple queries, transactions, SET, extended batches (named/unnamed), COPY IN with chunks up to 9000 bytes, queries of 8.2-20 kB, error replies, "
-                       "bursts of 15-24 pipelined queries, SET SERVER ROLE switches; + healthy and outage (mirror down, > capacity requests, mirror up) families compared with the Coq model; "
-                       "+ mirrors_of on every (mapping, index 0..6). distinct = distinct (mapping, program, schedule) triples + attachment queries" % (nfault, len(CONFIGS), FAULTS))
+                       "(1-2 servers, 0-2 mirrors per server, target index 0/1/5=no server, pool_size 1-2, statement cache off/on), first mirror's fault cycling through %s, shapes from-start / later / recovering / flapping, "
+                       "second mirror random; programs of 5-15 requests: simple queries, transactions, SET, extended batches (named/unnamed), COPY IN with chunks up to 9000 bytes, queries of 8.2-20 kB, error replies, "
+                       "bursts of 15-24 pipelined queries, SET SERVER ROLE switches, a second client holding a transaction on its own server connection, the real server closing its connection + a new client; "
+                       "+ healthy and outage (mirror unreachable, > capacity requests, mirror back) families compared with the Coq model; + back-pressure runs (mirror stops reading, 6-10 MB of requests); "
+                       "+ mirrors_of on every (mapping, index 0..6); + 3 directed scenarios for the mirror-only defects. A failing pair is re-run alone and reported only if it fails again. "
+                       "distinct = distinct (mapping, program, schedule) triples + attachment queries" % (nfault, len(CONFIGS), FAULTS))
     run.cov["samples"] = samples[:5]
     run.cov["input_distribution"] = stats
+    run.cov["unconfirmed_first_failures"] = unconfirmed[:10]
 
     if not (tr_ok and proof_ok) and not run.violations and not run.broken:
         name = "translator shape (translate/mirror_consts.py: %s)" % tr_msg if not tr_ok else "Mirror/Props.v"
